@@ -5,7 +5,7 @@ import RpmVerif.Model.Accessors
 import RpmVerif.Driver.FileIterObs
 /-! Driver for C04. Op `hostile BYTES`. The implementation's observation lists an outcome class per
 read-side stage; the model predicts the parse stages (ok / err — it has no reachable panic, Props/C04)
-and copies the classes of stages it does not model. Spec: no stage may be `panic`, the process may not
+and copies the classes of stages it does not model (accessors, `fmt` = Display / Debug of the parsed values, digests, …). Spec: no stage may be `panic`, the process may not
 die (`abort`), no single allocation may exceed 64 MiB + 16·|input| (`alloc-excess`), and the file iterator must
 end even for a consumer that keeps pulling after an error (`iter=runaway`: unbounded work / memory).
 The `iter=` field of uncompressed payloads IS predicted: `Acc.getFileEntries` (the header's file list) +
